@@ -257,6 +257,10 @@ for _hd in seqs.all_harnesses():
                   functions=SHADOW_FUNCS, stubs=SHADOW_STUBS, assumptions=C19_ASSUME,
                   bounds=f"ONE operation of shape {_hd['shape']} (a=leader append of n entries, f=conflict-aware append of n entries, pu=purge, rs=reset) applied to {_pre}; "
                          f"indexes 1..={seqs.NB}, terms 1..={seqs.TB} symbolic, prev index/term and purge cutoff symbolic; every RaftLog query compared afterwards"))
+_c19.append(H("c19_term_segments_many_terms", "gen_brl::h", crate="shadow", timeout=600, common=False, loops=8,
+              functions=["TermSegments::{new, on_append, get}"], stubs=SHADOW_STUBS[:1],
+              assumptions=["six consecutive entries 1..=6 appended to a fresh TermSegments in one call"],
+              bounds="terms 1..=6 symbolic, non-decreasing (up to 5 term changes: more than the 3 segments of the shadow build, rewrite R3; the real capacity is 1024)"))
 h_c19_pu = [h for h in _c19 if h["name"] == "c19_empty_pu"][0]
 prop("C19",
      "after ONE log operation (leader append, conflict-aware append incl. the start-from-scratch path, purge, reset) on the empty log -- thorough tier: also on two "
